@@ -177,6 +177,8 @@ class BaseWorklist(list):
         diti_index : int
             Type of DiTis to use in subsequent steps
         """
+        if not isinstance(diti_index, (int, numpy.integer)) or isinstance(diti_index, bool) or diti_index < 0:
+            raise ValueError(f"Invalid diti_index: {diti_index}")
         if not (len(self) == 0 or self[-1][0] == "B"):
             raise InvalidOperationError(
                 "DiTi type can only be switched at the beginning or after a Break/commit step. Read the docstring."
@@ -387,8 +389,10 @@ class BaseWorklist(list):
             ("src_end", src_end),
             ("dst_start", dst_start),
             ("dst_end", dst_end),
+            ("diti_reuse", diti_reuse),
+            ("multi_disp", multi_disp),
         ):
-            if not isinstance(pos, (int, numpy.integer)) or pos < 0:
+            if not isinstance(pos, (int, numpy.integer)) or isinstance(pos, bool) or pos < 0:
                 raise ValueError(f"Invalid {pname}: {pos}")
 
         if exclude_wells is None:
